@@ -17,6 +17,7 @@ pub mod c16;
 pub mod c17;
 pub mod c18;
 pub mod c19;
+pub mod c20;
 pub mod compat;
 pub mod selftest;
 
@@ -31,7 +32,7 @@ pub struct PropDef {
 }
 
 pub fn all() -> Vec<PropDef> {
-    vec![c01::def_c01(), c01::def_c02(), c01::def_c03(), c04::def_c04(), c04::def_c05(), c06::def(), c07::def(), c08::def(), c09::def(), c10::def(), c11::def(), c12::def(), c13::def(), c14::def(), c15::def(), c16::def(), c17::def(), c18::def(), c19::def(), selftest::def_overflow(), selftest::def_spin()]
+    vec![c01::def_c01(), c01::def_c02(), c01::def_c03(), c04::def_c04(), c04::def_c05(), c06::def(), c07::def(), c08::def(), c09::def(), c10::def(), c11::def(), c12::def(), c13::def(), c14::def(), c15::def(), c16::def(), c17::def(), c18::def(), c19::def(), c20::def(), selftest::def_overflow(), selftest::def_spin()]
 }
 pub fn find(id: &str) -> Option<PropDef> {
     all().into_iter().find(|d| d.id == id)
